@@ -2,10 +2,10 @@
 # evaluates every finished seeded mutation that has not been evaluated yet, one after the other (they share /repo)
 cd /verif
 for p in "$@"; do
-  for v in a b; do
+  for v in a b c d; do
     d=/tmp/iprm-$p/_mutation/$v
     [ -f $d/patch.diff ] || continue
-    name=$p; [ $v = b ] && name=$p-b
+    name=$p; [ $v != a ] && name=$p-$v
     [ -f /verif/seeded/$name/meta.json ] && continue
     echo "### $name $(date -u +%H:%M:%S)"
     python3 tools/seed_eval.py $p $d $name 2>&1 | tail -6
